@@ -1,6 +1,7 @@
 package main
 
 import (
+	"regexp"
 	"bufio"
 	"fmt"
 	"go/ast"
@@ -383,6 +384,30 @@ func (eng *Engine) specSCC(name string) int {
 				}
 				return true
 			})
+		}
+		// the properties a specification function states (its ensures) may mention other specification functions: proving
+		// them may rely on those functions' exported properties, so such references count as dependencies as well
+		wordRe := regexp.MustCompile(`[A-Za-z_][A-Za-z0-9_]*`)
+		for full, sf := range eng.specs {
+			if sf.ct == nil {
+				continue
+			}
+			pkgPrefix := full[:strings.LastIndex(full, ".")+1]
+			for _, cls := range [][]*Clause{sf.ct.Ensures, sf.ct.Requires, sf.ct.Uses} {
+				for _, cl := range cls {
+					for _, w := range wordRe.FindAllString(cl.Text, -1) {
+						if _, ok := eng.specs[pkgPrefix+w]; ok && pkgPrefix+w != full {
+							calls[full] = append(calls[full], pkgPrefix+w)
+						} else if !ok {
+							for _, cand := range byShort[w] {
+								if cand != full && !strings.HasPrefix(cand, pkgPrefix) {
+									calls[full] = append(calls[full], cand)
+								}
+							}
+						}
+					}
+				}
+			}
 		}
 		// reachability-based SCC (small graphs)
 		reach := func(from string) map[string]bool {
